@@ -9,7 +9,6 @@
 //! boundary inside the call are recovered with a fresh persister and checked against the model.
 
 use crate::kv::{join, OpKind, SimKv, Snapshot, Val};
-use bitcoin::secp256k1::PublicKey;
 use bitcoin::{ScriptBuf, Transaction};
 use lightning::chain::channelmonitor::{ChannelMonitor, ChannelMonitorUpdate};
 use lightning::chain::chainmonitor::Persist;
@@ -909,9 +908,6 @@ impl Mirror {
 		&mut self, ctx: &mut Ctx, state: &BTreeMap<String, (Val, usize)>, opi: usize, what: &str,
 		full_read: bool,
 	) {
-		if std::env::var("PERSISTSIM_NOCHECK").is_ok() {
-			return;
-		}
 		self.crash_states += 1;
 		ctx.out.bump("fault:crash_point");
 		let keys: Vec<String> = self.chans.keys().cloned().collect();
@@ -1403,5 +1399,3 @@ pub fn drain_events(m: &Mon, logger: &Arc<SimLogger>) -> Vec<String> {
 	out
 }
 
-#[allow(dead_code)]
-fn _assert_traits(_: PublicKey) {}
